@@ -89,7 +89,7 @@ func (c *chatHandler) handleSessionChat(packet *chat.SessionPlayerChat, unsigned
 		}
 		if evt.Message() != packet.Message {
 			if packet.Signed && c.invalidChange(c.log, c.player) {
-				return nil
+				return asFuture(nil)
 			}
 			builder := &chat.Builder{
 				Protocol:  server.Protocol(),
